@@ -527,6 +527,7 @@ class MolGraph:
         :param atoms: Iterable of atom ids to be
         :return: Subgraph
         """
+        atoms = tuple(atoms)  # the argument may be a one-shot iterable
         new_atoms = set(atoms)
         atom_attrs = {atom: self._atom_attrs[atom].copy() for atom in atoms}
         bond_attrs = {
